@@ -151,9 +151,13 @@ def gen_landscape(rng, sizes, kind):
         for _ in range(rng.range(1, 3)):
             t[rng.below(n)] = rng.choice([float("nan"), float("inf"), float("-inf")])
         return land_lin([rng.range(1, 40) for _ in range(d)], t)
-    if kind == "extreme":    # finite but huge / tiny magnitudes
+    if kind == "extreme":    # finite, tiny up to large magnitudes (below 1e150)
         n = rng.choice([7, 11, 17])
-        t = [rng.choice([1.0, -1.0]) * 10.0 ** rng.range(-300, 300) for _ in range(n)]
+        t = [rng.choice([1.0, -1.0]) * 10.0 ** rng.range(-300, 149) for _ in range(n)]
+        return land_lin([rng.range(1, 40) for _ in range(d)], t)
+    if kind == "huge":       # finite, magnitudes 1e150 .. 1e300 (KNOWN_FINDINGS: the surrogate fit overflows)
+        n = rng.choice([7, 11, 17])
+        t = [rng.choice([1.0, -1.0]) * rng.uniform(1.0, 9.0) * 10.0 ** rng.range(150, 300) for _ in range(n)]
         return land_lin([rng.range(1, 40) for _ in range(d)], t)
     raise ValueError(kind)
 
@@ -251,8 +255,10 @@ def gen(rng, tier):
     ops.append(gen_run(rng, tuner="local-search", kind="bowl", d=3, sizes=[31, 31, 31], max_evals=1000))
     for _ in range(2500 if big else 260):
         ops.append(gen_run(rng))
-    for _ in range(30 if big else 4):
-        ops.append(gen_run(rng, tuner="local-search", kind="extreme"))
+    for _ in range(40 if big else 6):
+        ops.append(gen_run(rng, kind="extreme"))
+    for _ in range(20 if big else 4):
+        ops.append(gen_run(rng, kind="huge", max_evals=rng.choice([10, 20])))
     for _ in range(1200 if big else 120):
         ops.append(gen_tune(rng))
     return ops
@@ -419,6 +425,8 @@ def oracle_run(t, r, head):
     if thrown:
         r.s()
     batches = read_batches(r)
+    if d == 0:   # "at least one parameter space is needed": the tuner refuses before any evaluation
+        return None if thrown and not batches else "no-spaces: the tuner accepted an empty list of parameter spaces"
     seen = []
     for bi, b in enumerate(batches):
         if not b:
@@ -435,7 +443,8 @@ def oracle_run(t, r, head):
     bad = [bi for bi, b in enumerate(batches) if any(not math.isfinite(f(decode(spaces, p))) for p in b)]
     if thrown:
         if not bad:
-            return "throws-on-finite: exception although every evaluated value is finite"
+            m = max([abs(f(g)) for g in seen] + [0.0])
+            return f"throws-on-finite: exception although every evaluated value is finite (max |value| = {m:.3e})"
         if bad[0] != len(batches) - 1:
             return "nonfinite-accepted: a non-finite value was accepted (more batches followed it)"
         return None
@@ -627,7 +636,12 @@ def classify(op, kind, detail):
     if base in ("run", "tune") and len(t) > 2:
         base += ":" + t[2]
     if kind == "oracle":
-        return base + ":" + detail.split(":")[0].split(" ")[0]
+        key = base + ":" + detail.split(":")[0].split(" ")[0]
+        if key == "run:surrogate:throws-on-finite" and "max |value| = " in detail:
+            # KNOWN_FINDINGS: only the overflow of the surrogate fit on values of magnitude >= 1e150 is a known finding
+            if float(detail.split("max |value| = ")[1].split(")")[0]) >= 1e150:
+                key += ":magnitude>=1e150"
+        return key
     return base
 
 
